@@ -80,7 +80,7 @@ def run(tier, seed):
     _, _, mm2 = validate(st, "selftest")
     chk.cov["selftest"] = {"corrupted_events": n, "rejected": len(mm2), "ok": len(mm2) >= n and n == 2}
     if not chk.cov["selftest"]["ok"]:
-        raise ToolError("self-test: corrupted play() logs were not rejected")
+        chk.selftest_failed("corrupted play() logs were not rejected")
     with open(first) as f:
         chk.sample([json.loads(next(f)) for _ in range(2)])
     chk.cov["traces_validated_against_impl"] = tracks
